@@ -142,8 +142,8 @@ SPECS = {
                 "are fingerprinted before/after every failed call",
                 r"(result|e\.(tmpswap|sentfunds|tmpliq)|bal\.|p\d+\.|v\d+\.(q|b|total))"),
     "C09": Spec("C09", [fam("auth", 4, 24)], mon_more.mon("C09"),
-                "exhaustive matrix: 24 privileged messages of the five contracts x 9 sender kinds (owner, new owner, stranger, trader, engine, insurance fund, vAMM, fee pool, liquidator) "
-                "x before/after every role was transferred, on generated deployments (real and mock feed); refusal must leave the storage/balance fingerprint unchanged",
+                "exhaustive matrix: 24 privileged messages of the five contracts x 12 senders (owner, new owner, stranger, four traders, engine, insurance fund, vAMM, fee pool, liquidator) "
+                "x five role layouts (initial; all roles moved to one account; every role held by a different account; only the pauser moved; only the engine owner moved), on generated deployments (real and mock feed); refusal must leave the storage/balance fingerprint unchanged",
                 r"(result|e\.(owner|pauser|pause|wl|plr)|v\d+\.(owner|open|holdcap)|if\.|fp\.|feed\.)"),
     "C13": Spec("C13", [fam("twin", 16, 120)], mon_more.c13,
                 "twin deployments (cw20 / native, equal decimals and parameters, with and without fees) driven through the same history; each native call attaches exactly what the cw20 "
@@ -201,7 +201,7 @@ def run_check(prop, tier, seed, replay=None):
     if replay:
         paths = replay_paths(spec, replay)
     else:
-        paths = generate(spec, tier, seed)
+        paths = corpus_paths(spec) + generate(spec, tier, seed)   # minimised earlier failures run first
     with ThreadPoolExecutor(16) as ex:
         corr = list(ex.map(vlib.run_model, paths))
     viol, stats = spec.monitor(paths)
@@ -276,6 +276,25 @@ def run_check(prop, tier, seed, replay=None):
     print(f"{prop}: theorems {proof['discharged']}/{proof['obligations']}, compared {ev['coverage']['correspondence']['lines_compared']} "
           f"lines, {len(divs)} divergences, {len(viol)} monitor hits ({len(unknown)} unlisted), {ev['wall_s']}s")
     return 1 if violations else 0
+
+
+def corpus_paths(spec):
+    """replay every minimised case kept under corpus/<property>/ against the current tree"""
+    cdir = os.path.join(vlib.VERIF, "corpus", spec.prop)
+    if not os.path.isdir(cdir):
+        return []
+    d = vlib.trace_dir(spec.prop + "-corpus")
+    outs = []
+    for name in sorted(os.listdir(cdir)):
+        if not name.endswith(".case"):
+            continue
+        out = os.path.join(d, name[:-5] + ".trace")
+        p = vlib.run_harness("replay", out, 0, "quick", [os.path.join(cdir, name)])
+        p.wait()
+        if p.returncode != 0:
+            raise vlib.MachineryError("corpus replay failed: " + name + ": " + p.stdout.read())
+        outs.append(out)
+    return outs
 
 
 def replay_paths(spec, replay):
